@@ -1,4 +1,5 @@
 import collections
+import os
 import struct
 import sys
 
@@ -13,6 +14,10 @@ from .types import Instruction, Label, Assignment, InstructionPointer, WordList,
 from . import reports
 
 
+# Verification hook (off unless PDPY11_VERIF=1): layout trace for model checking
+_VERIF = os.environ.get("PDPY11_VERIF") == "1"
+
+
 class Compiler:
     def __init__(self, output_charset="bk"):
         self.symbols = CaseInsensitiveDict()
@@ -23,6 +28,7 @@ class Compiler:
         self.next_internal_symbol_prefix = 1
         self.times_file_compiled = collections.defaultdict(int)
         self.internal_prefix_to_state = {}
+        self._verif_trace = [] if _VERIF else None
 
 
     def compile_file(self, file, start, link_base):
@@ -54,6 +60,8 @@ class Compiler:
                 if isinstance(insn, Instruction):
                     chunk = self.compile_insn(insn, state)
                     if chunk is not None:
+                        if _VERIF:
+                            self._verif_trace.append((block, start, insn, addr, chunk))
                         data += chunk
                         if isinstance(chunk, BaseDeferred):
                             addr += chunk.length()
@@ -62,6 +70,8 @@ class Compiler:
 
                 elif isinstance(insn, WordList):
                     chunk = self.compile_word_list(insn, insn.words, state)
+                    if _VERIF:
+                        self._verif_trace.append((block, start, insn, addr, chunk))
                     data += chunk
                     if isinstance(chunk, BaseDeferred):
                         addr += chunk.length()
@@ -103,6 +113,8 @@ class Compiler:
                                     return b"\x00" * length
 
                                 chunk = Deferred[bytes](fn)
+                                if _VERIF:
+                                    self._verif_trace.append((block, start, insn, addr, chunk))
                                 data += chunk
                                 if isinstance(chunk, BaseDeferred):
                                     addr += chunk.length()
